@@ -33,8 +33,8 @@ def main (args : List String) : IO UInt32 := do
   | ["judge", "db"] => judgeLoop stdin stdout ({} : Db.J) Db.judgeLine; return 0
   | ["model", "sess"] => modelLoop stdin stdout ({} : Sess.St) Sess.stepLine; return 0
   | ["judge", "sess"] => judgeLoop stdin stdout ({} : Sess.J) Sess.judgeLine; return 0
-  | ["model", "lock"] => modelLoop stdin stdout () Lock.stepLine; return 0
-  | ["judge", "lock"] => judgeLoop stdin stdout "?" Lock.judgeLine; return 0
+  | ["model", "lock"] => modelLoop stdin stdout ({} : LockTrace.St) Lock.stepLine; return 0
+  | ["judge", "lock"] => judgeLoop stdin stdout ({} : Lock.J) Lock.judgeLine; return 0
   | ["model", "wal"] => modelLoop stdin stdout () Wal.stepLine; return 0
   | ["judge", "wal"] => judgeLoop stdin stdout ({} : Wal.J) Wal.judgeLine; return 0
   | _ => IO.eprintln "usage: mkdbdrv model|judge <proto>"; return 2
